@@ -141,6 +141,14 @@ class MessageReader:
         except etree.XMLSyntaxError as ex:
             self._logger.warning('Error reading response ex=%r xml=%s', ex, xml_text.decode('utf-8'))
             raise
+        if doc_root.getroottree().docinfo.doctype:
+            # SOAP 1.2 part 1, chapter 5: a SOAP message MUST NOT contain a document type declaration.
+            # (resolve_entities=False keeps entity references in element content unexpanded, but libxml2 always
+            # replaces them in attribute values)
+            fault = Fault()
+            fault.Code.Value = faultcodeEnum.SENDER
+            fault.add_reason_text('document type declaration is not allowed in a SOAP message')
+            raise ValidationError(reason='document invalid', soap_fault=fault)
         if validate:
             self._validate_node(doc_root)
 
